@@ -35,7 +35,11 @@ ENGINE = "M (MIR -> SMT, z3): the decision evaluation closure over oracle regist
 
 def run(check, mirror, tier):
     rb = replay_build(mirror)
-    run_parallel(check, build_jobs(check, mirror, tier, rb))
+    jobs = build_jobs(check, mirror, tier, rb)
+    from checks import C04_boxed
+    crate = MirCrate(mirror, ["model-evaluator", "feel"], overflow_checks=True, enum_crates=("common", "feel", "model"))
+    C04_boxed.jobs_for(check, mirror, rb, crate, fv.Universe(mirror), jobs, tier)
+    run_parallel(check, jobs)
 
 
 def build_jobs(check, mirror, tier, rb, oid="decision_closure", lock_models=None, post_hook=None, replay_override=None, me_value=None):
